@@ -1034,6 +1034,7 @@ func main() {
 						for _, tall := range []bool{false, true} {
 							checkNesting(r, c.Pattern, axis, dir, corner, tall)
 							checkNestingAt(r, c.Pattern, axis, dir, corner, tall, farOffset)
+							checkNestingAt(r, c.Pattern, axis, dir, corner, tall, farOffset.Scale(16))
 						}
 					}
 				}
@@ -1136,6 +1137,11 @@ func main() {
 			checkNesting(r, j.parent, j.axis, j.dir, j.corner, j.tall)
 			if (i%3 == 0 || r.Thorough()) && len(j.parent) > 1 {
 				checkNestingAt(r, j.parent, j.axis, j.dir, j.corner, j.tall, farOffset)
+			}
+			// sixteen times farther: a whole nest now lies within a few single-precision steps, so that keys kept
+			// in a narrower type tie for most of its vertices (at 2^24 only a few do, and a tie can fall right)
+			if (i%3 == 1 || r.Thorough()) && len(j.parent) > 1 {
+				checkNestingAt(r, j.parent, j.axis, j.dir, j.corner, j.tall, farOffset.Scale(16))
 			}
 			if !j.tall {
 				checkNesting2D(r, j.parent, j.axis, j.dir, j.corner)
